@@ -16,11 +16,14 @@ RULE = ("a case is one session (one or two execute() calls on the same Executor/
         "tasks and default sub-collections at every level) with 1-5 requested tasks per call, each invoked through ANY name "
         "the collection resolves for it (primary dotted name, alias, default-task / default-sub-collection shortcut, "
         "underscore or dash spelling; consecutive calls biased to the same task under another name / the same, parent or "
-        "child namespace), sometimes no name (the root default), pre/post tasks from other sub-collections, bodies that record the deep view of context.config and then perform generated "
+        "child namespace), sometimes no name (the root default), pre/post tasks living in other sub-collections, task "
+        "objects bound in two places, pre/post task objects the collection does not hold, bodies that record the deep view of context.config and then perform generated "
         "writes / deletions / nested edits / dict-protocol mutations and change os.environ for the following tasks; "
         "oracle per executed task: view = journal of all earlier tasks' edits replayed over the merge of the levels with "
-        "collection := deep merge of the settings along ITS OWN namespace path (outer wins) and env := the environment as it "
-        "is when the task starts; no exception may escape execute(); the same session is run through the Lean model "
+        "collection := deep merge of the settings along ITS OWN namespace path (outer wins; the path of the name used, for "
+        "unnamed pre/post/default calls any path the task object is bound under, the root for a task object the collection "
+        "does not hold) and env := the environment as it is when the task starts, applied to the settings that exist "
+        "WITHOUT any earlier environment load; no exception may escape execute(); the same session is run through the Lean model "
         "(TASK step = load_collection + load_shell_env); non-trivial = at least two tasks from different namespaces "
         "executed and at least one edit succeeded; distinct = distinct sessions")
 TRUSTED = ["Lean 4.33 kernel", "axioms propext/Classical.choice/Quot.sound only",
@@ -31,7 +34,7 @@ ASSUMPTIONS = ["type-consistent values; dict-valued writes only at key paths no 
                "after checking it against the straightforward expansion",
                "environment values are texts that the setting's current type can adopt (C16)"]
 
-KNOWN_SIGS = ("C19-called-as-none-root-only",)
+KNOWN_SIGS = ()  # finding #23 (called_as=None -> root settings only) was repaired in /repo
 DEFAULTS = {"tasks": {"dedupe": False}}
 
 
@@ -151,39 +154,62 @@ def spellings(rng_or_none, comps):
 
 
 def index_tree(tree):
-    """BY CONSTRUCTION: tag -> settings along its own namespace path; tag -> every name that invokes it
-    (primary dotted name, aliases, default-task / default-sub-collection shortcuts; both spellings)"""
-    cfgs, names, coll = {}, {}, {}
+    """BY CONSTRUCTION: tag -> the settings chains (root..collection) of every place the task object is bound, in
+    `task_names` order; name -> (tag, chain) for every name that invokes a task (primary dotted name, aliases,
+    default-task / default-sub-collection shortcuts; both spellings); tag -> names; tag -> first collection path"""
+    bindings, resolve, names, coll = {}, {}, {}, {}
     for node, here, chain in walk(tree):
         for t in node["tasks"]:
-            cfgs[t["tag"]] = list(chain)
-            coll[t["tag"]] = ".".join(here)
-            ns = []
+            bindings.setdefault(t["tag"], []).append(list(chain))
+            coll.setdefault(t["tag"], ".".join(here))
             for n in [t["name"]] + t["aliases"]:
-                ns += spellings(None, list(here) + [n])
-            names[t["tag"]] = ns
+                for sp in spellings(None, list(here) + [n]):
+                    resolve[sp] = (t["tag"], list(chain))
+                    names.setdefault(t["tag"], []).append(sp)
     for node, here, chain in walk(tree):
-        d = default_tag(node)
+        d = default_binding(node, chain[:-1])
         if d and here:
-            names[d] += spellings(None, list(here))
-    return cfgs, names, coll
+            for sp in spellings(None, list(here)):
+                resolve[sp] = d
+                names[d[0]].append(sp)
+    return bindings, resolve, names, coll
 
 
-def coll_of(case, tag):
-    return case["_coll"][tag]
+def default_binding(node, above=()):
+    """(tag, settings chain) of the task a collection's default resolves to (following default sub-collections)"""
+    chain = list(above) + [node["cfg"]]
+    if node["default_task"]:
+        return next(t["tag"] for t in node["tasks"] if t["name"] == node["default_task"]), chain
+    if node["default_sub"]:
+        return default_binding(next(s for s in node["subs"] if s["name"] == node["default_sub"]), chain)
+    return None
 
 
 def gen_session(rng, prepost=0.3):
     bodies = {}
     tree = gen_node(rng, None, 1, [], bodies, [rng.randint(0, 9)])
-    cfgs, names, coll = index_tree(tree)
     tags = sorted(bodies)
+    if rng.random() < 0.25:
+        # the same task object bound a second time, in another collection under another name
+        tag = rng.choice(tags)
+        nodes = [n for n, _, _ in walk(tree) if not any(t["tag"] == tag for t in n["tasks"])]
+        if nodes:
+            n = rng.choice(nodes)
+            free = [x for x in TASK_NAMES + ["dup_b"] if x not in [t["name"] for t in n["tasks"]]]
+            n["tasks"].append({"name": rng.choice(free), "aliases": [], "tag": tag})
+    bindings, resolve, names, coll = index_tree(tree)
     if rng.random() < prepost:
         for _ in range(rng.randint(1, 2)):
             t = rng.choice(tags)
-            other = rng.choice([x for x in tags if x != t] or [t])
+            if rng.random() < 0.2:
+                other = "ext%d" % len([x for x in bodies if x.startswith("ext")])  # a task object the collection does not hold
+                bodies[other] = {"pre": [], "post": [], "ops": gen_body(rng, rng.randint(0, 2))}
+            else:
+                cands = [x for x in tags if x != t]
+                far = [x for x in cands if coll[x] != coll[t]]
+                other = rng.choice(far if far and rng.random() < 0.7 else cands or [t])
             if other != t and not bodies[other]["pre"] and not bodies[other]["post"] and not any(
-                    t in bodies[x]["pre"] + bodies[x]["post"] for x in tags):
+                    t in bodies[x]["pre"] + bodies[x]["post"] for x in bodies):
                 bodies[t][rng.choice(["pre", "post"])].append(other)
     with_pp = [t for t in tags if bodies[t]["pre"] or bodies[t]["post"]]
 
@@ -203,10 +229,10 @@ def gen_session(rng, prepost=0.3):
             elif prev is not None and r < 0.6:
                 tag = related(prev)
             else:
-                tag = rng.choice(with_pp) if with_pp and rng.random() < 0.2 else rng.choice(tags)
+                tag = rng.choice(with_pp) if with_pp and rng.random() < 0.3 else rng.choice(tags)
             req.append(rng.choice(names[tag]))
             prev = tag
-        if rng.random() < 0.08 and default_tag(tree):
+        if rng.random() < 0.08 and default_binding(tree):
             req = []
         calls.append(req)
     env0 = {}
@@ -242,28 +268,37 @@ def upgrade(case):
 
 def prepare(case):
     case = upgrade(case)
-    case["_cfgs"], case["_names"], case["_coll"] = index_tree(case["tree"])
-    case["_resolve"] = {n: tag for tag, ns in case["_names"].items() for n in ns}
+    case["_bindings"], case["_resolve"], case["_names"], case["_coll"] = index_tree(case["tree"])
     return case
 
 
 def expansion(case):
-    """(tag, called_as_none) in execution order: pre tasks, the task, post tasks (no dedupe), over all execute() calls"""
+    """(tag, name it was called by | None) in execution order: pre tasks, the task, post tasks (no dedupe),
+    over all execute() calls"""
     out = []
 
-    def expand(tag, none):
+    def expand(tag, name):
         for p in case["bodies"][tag]["pre"]:
-            expand(p, True)
-        out.append((tag, none))
+            expand(p, None)
+        out.append((tag, name))
         for p in case["bodies"][tag]["post"]:
-            expand(p, True)
+            expand(p, None)
     for req in case["calls"]:
         if req:
             for n in req:
-                expand(case["_resolve"][n], False)
+                expand(case["_resolve"][n][0], n)
         else:
-            expand(default_tag(case["tree"]), True)
+            expand(default_binding(case["tree"])[0], None)
     return out
+
+
+def candidates(case, tag, name):
+    """(unheld?, [settings chains the property accepts as the task's own namespace path])"""
+    if name is not None:
+        return False, [case["_resolve"][name][1]]
+    if tag in case["_bindings"]:
+        return False, case["_bindings"][tag]  # bound in several places: any of its paths is its own
+    return True, [[case["tree"]["cfg"]]]      # not held by the collection: no namespace of its own
 
 
 def run_session(case):
@@ -306,11 +341,11 @@ def run_session(case):
     info = {}
     for node, here, _ in walk(case["tree"]):
         for t in node["tasks"]:
-            info[t["tag"]] = t
+            info.setdefault(t["tag"], t)
     # tasks without pre/post first so that the objects exist when referenced
     for tag in sorted(case["bodies"], key=lambda t: bool(case["bodies"][t]["pre"] or case["bodies"][t]["post"])):
         spec = case["bodies"][tag]
-        task_objs[tag] = Task(mk(tag), name=info[tag]["name"], pre=[task_objs[p] for p in spec["pre"]],
+        task_objs[tag] = Task(mk(tag), name=info[tag]["name"] if tag in info else tag, pre=[task_objs[p] for p in spec["pre"]],
                               post=[task_objs[p] for p in spec["post"]])
 
     def build(node):
@@ -325,7 +360,7 @@ def run_session(case):
 
     root = build(case["tree"])
     # the names computed by construction must be names the collection resolves to that very task
-    bad = [n for n, tag in case["_resolve"].items() if _lookup(root, n) is not task_objs[tag]]
+    bad = [n for n, (tag, _) in case["_resolve"].items() if _lookup(root, n) is not task_objs[tag]]
     cfg = Config(defaults=copy.deepcopy(case["defaults"]), overrides=copy.deepcopy(case["overrides"]), lazy=True,
                  **cfglib.NOFILES)
     escaped = None
@@ -350,14 +385,10 @@ def _lookup(root, name):
         return None
 
 
-def path_cfgs(case, tag):
-    return case["_cfgs"][tag]
-
-
-def ns_expected(case, tag):
-    """collection-level settings for the task's own namespace path: deep merge along the path, outer wins (C17)"""
+def ns_of(chain):
+    """collection-level settings for a namespace path: deep merge along the path, outer wins (C17)"""
     m = {}
-    for c in reversed(path_cfgs(case, tag)):
+    for c in reversed(chain):
         m = cfglib.deep_merge(m, c)
     return m
 
@@ -369,33 +400,33 @@ def judge(case, record, escaped):
     first = cfglib.Ref({"defaults": case["defaults"], "overrides": case["overrides"]})
     rows = ["-#" + cfglib.canon(first.tree)]
     ref = first
-    why = sig = None
     if [t for t, _ in exp[:len(record)]] != [r[0] for r in record]:
         return "executed %s, expected expansion %s" % ([r[0] for r in record], exp), "order", ops, rows
-    for (tag, none), (_, view, environ, steps) in zip(exp, record):
-        ops.append({"o": 0, "op": "TASK", "none": none, "cfgs": path_cfgs(case, tag), "env": environ})
-        rows.append("-#" + (view if isinstance(view, str) else cfglib.canon(view)))
+    for (tag, name), (_, view, environ, steps) in zip(exp, record):
+        unheld, chains = candidates(case, tag, name)
         if isinstance(view, str):
+            ops.append({"o": 0, "op": "TASK", "none": unheld, "cfgs": chains[0], "env": environ})
+            rows.append("-#" + view)
             return "config unreadable inside %s: %s" % (tag, view), "other", ops, rows
+        chosen = None
         try:
-            alt = ref.clone()
-            ref.reload("collection", ns_expected(case, tag))
-            ref.load_env(environ)
+            alts = []
+            for ch in chains:
+                alt = ref.clone()
+                alt.reload("collection", ns_of(ch))
+                alt.load_env(environ)
+                alts.append(alt)
+                if chosen is None and cfglib.canon(view) == cfglib.canon(alt.tree):
+                    chosen = (ch, alt)
         except cfglib.RefSkip:
             return None, None, ops, rows
-        if cfglib.canon(view) != cfglib.canon(ref.tree):
-            why = "task %s (called_as %s) sees %s; own namespace settings + fresh env + earlier edits give %s" % (
-                tag, "None" if none else tag, cfglib.canon(view), cfglib.canon(ref.tree))
-            sig = "other"
-            if none:
-                try:
-                    alt.reload("collection", case["tree"]["cfg"])
-                    alt.load_env(environ)
-                    if cfglib.canon(alt.tree) == cfglib.canon(view):
-                        sig = "C19-called-as-none-root-only"
-                except cfglib.RefSkip:
-                    pass
-            return why, sig, ops, rows
+        ops.append({"o": 0, "op": "TASK", "none": unheld, "cfgs": (chosen or (chains[0],))[0], "env": environ})
+        rows.append("-#" + cfglib.canon(view))
+        if chosen is None:
+            why = "task %s (called as %s) sees %s; own namespace settings + fresh env + earlier edits give %s" % (
+                tag, name, cfglib.canon(view), " or ".join(cfglib.canon(a.tree) for a in alts))
+            return why, "other", ops, rows
+        ref = chosen[1]
         for op, r, v in steps:
             ops.append(dict(op, o=0))
             rows.append(r + "#" + (v if isinstance(v, str) else cfglib.canon(v)))
@@ -434,10 +465,7 @@ def replay(case):
 
 
 def match_known(entry, failure):
-    if not entry.get("match") or failure["case"].get("kind") != "session":
-        return False
-    why, sig, _, _, _ = check(copy.deepcopy(failure["case"]))
-    return why is not None and sig == entry["match"]
+    return False  # C19 has no known finding left (#23 was repaired); every oracle failure is a violation
 
 
 def run(ctx):
@@ -448,8 +476,16 @@ def run(ctx):
     for i in range(ctx.n(3500, 45000)):
         case = gen_session(rng, prepost=0.3 if i % 2 else 0.0)
         why, sig, ops, rows, record = check(case)
-        _, names, coll = index_tree(case["tree"])
-        resolve = {n: tag for tag, ns in names.items() for n in ns}
+        bindings, res2, names, coll = index_tree(case["tree"])
+        resolve = {n: t for n, (t, _) in res2.items()}
+        coll = dict(coll, **{t: "<outside>" for t in case["bodies"] if t not in coll})
+        for t in case["bodies"]:
+            for o in case["bodies"][t]["pre"] + case["bodies"][t]["post"]:
+                out.hist["prepost_defined"] += 1
+                out.hist["prepost_in_other_namespace"] += (o in bindings and coll[o] != coll[t])
+                out.hist["prepost_not_held_by_collection"] += (o not in bindings)
+                out.hist["prepost_bound_in_several_places"] += (len(bindings.get(o, [])) > 1)
+        out.hist["tasks_bound_in_several_places"] += sum(1 for t in bindings if len(bindings[t]) > 1)
         tags = [r[0] for r in record]
         edits = [1 for r in record for op, res, v in r[3] if op["op"] in cfglib.MUTATORS and not res.startswith("E:")]
         out.case(case, len({coll[t] for t in tags}) >= 2 and bool(edits))
@@ -501,10 +537,11 @@ def run(ctx):
 
 LEVEL_TEXT = ("Lean 4 proofs on the Config model extended by the executor's per-task step (load_collection of the namespace "
               "configuration, load_shell_env, then the body's edits): task_sees_own_ns_plus_journal (the view a task starts "
-              "with is the journal of all earlier edits replayed over the merge with ITS collection level and ITS environment "
-              "level, for every sequence of tasks and edit scripts), named_task_sees_own_namespace, session_never_fails, and - "
-              "making the boundary of the known finding explicit - pre_post_task_sees_root_only / "
-              "unnamed_task_gets_root_settings / called_as_none_counterexample for pre/post/default tasks; tied to the real Executor + Config + Collection by "
-              "running generated sessions through both and by a direct oracle")
+              "with is the journal of all earlier edits replayed over the merge with ITS collection level and an env level "
+              "that is a function of the current other levels, the journal and the current environment only - "
+              "stale_env_is_irrelevant), held_task_sees_own_namespace (named calls AND pre/post/default tasks the collection "
+              "holds get nsConfig of their path), unheld_task_sees_root_settings (residual case), session_never_fails, and "
+              "called_as_none_pinned_counterexample for the behaviour before the repair of #23; tied to the real Executor + "
+              "Config + Collection by running generated sessions through both and by a direct oracle")
 TECHNIQUE = ("Lean 4 theorems over all task sequences x edit scripts (instance of the C06 journal theorem with the base "
              "swapped per task) + real Executor sessions vs model + reference-dict oracle")
